@@ -108,6 +108,68 @@ class Gen:
         if self.f["fns"]: return {"t": "fn", "f": "concat", "args": [self.strexpr(d - 1), strlit(self.r.choice(["z", "ab", "Z", "AB", "aB"]))]}
         return col("s")
 
+    # ---- function library (profile fn_lib): calls inside each function's decided domain -----------------------
+    def fn_num(self, d=1):
+        """numeric-valued call"""
+        r = self.r
+        x = (lambda: self.fn_num(d - 1)) if d > 0 and r.random() < 0.3 else (lambda: col(r.choice(NUMCOLS)) if r.random() < 0.8 else num(r.choice([0, 1, 2, 3, 5, 7]), r.choice([1, 1, 2, 4])))
+        k = r.choice(["abs", "floor", "ceil", "ceiling", "round", "round2", "sign", "power", "mod", "sqrt", "greatest", "least", "length", "indexof"])
+        if k in ("abs", "floor", "ceil", "ceiling", "round", "sign"): return {"t": "fn", "f": k, "args": [x()]}
+        if k == "round2": return {"t": "fn", "f": "round", "args": [x(), num(r.choice([0, 1, 2]))]}
+        if k == "power":   # base is an atom: nested powers of quarters overflow TLC's 32-bit integers
+            return {"t": "fn", "f": "power", "args": [col(r.choice(NUMCOLS)) if r.random() < 0.8 else num(r.choice([0, 2, 3, 5]), r.choice([1, 2])), num(r.choice([0, 1, 2, 3]))]}
+        if k == "mod": return {"t": "fn", "f": "mod", "args": [x(), num(r.choice([2, 3, 5]))]}
+        if k == "sqrt": return {"t": "fn", "f": "sqrt", "args": [r.choice([num(4), num(9), num(0), num(1, 4), num(25, 4), col("q")])]}
+        if k in ("greatest", "least"): return {"t": "fn", "f": k, "args": [x() for _ in range(r.choice([2, 2, 3]))]}
+        if k == "length": return {"t": "fn", "f": "length", "args": [self.fn_str(d - 1)]}
+        return {"t": "fn", "f": "indexof", "args": [self.fn_str(d - 1), strlit(r.choice(["b", "ab", "a", " ", "zz"]))]}
+
+    def fn_str(self, d=1):
+        """string-valued call (or a string atom)"""
+        r = self.r
+        if d <= 0 or r.random() < 0.25: return col("s") if r.random() < 0.75 else strlit(r.choice(["ab", " a ", "xz", "abab"]))
+        x = lambda: self.fn_str(d - 1)
+        k = r.choice(["upper", "lower", "concat", "concat3", "trim", "ltrim", "rtrim", "substring2", "substring3", "replace", "lpad", "rpad", "coalesce"])
+        if k in ("upper", "lower", "trim", "ltrim", "rtrim"): return {"t": "fn", "f": k, "args": [x()]}
+        if k == "concat": return {"t": "fn", "f": "concat", "args": [x(), strlit(r.choice(["z", " ", "AB"]))]}
+        if k == "concat3": return {"t": "fn", "f": "concat", "args": [strlit(r.choice(["<", "a"])), x(), strlit(r.choice([">", " "]))]}
+        if k == "substring2": return {"t": "fn", "f": "substring", "args": [col("s"), num(r.choice([0, 1, 2]))]}
+        if k == "substring3":
+            st = r.choice([0, 1]); return {"t": "fn", "f": "substring", "args": [col("s"), num(st), num(r.choice([0, 1, 2 - st]))]}
+        if k == "replace": return {"t": "fn", "f": "replace", "args": [x(), strlit(r.choice(["a", "ab", " ", "b"])), strlit(r.choice(["", "zz", "a", "x"]))]}
+        if k in ("lpad", "rpad"): return {"t": "fn", "f": k, "args": [col("s"), num(r.choice([5, 6, 8])), strlit(r.choice(["*", "0", " "]))]}
+        return {"t": "fn", "f": r.choice(["coalesce", "if_null"]), "args": [col(r.choice(["s", "n"])), strlit("dflt")]}
+
+    def fn_bool(self):
+        r = self.r
+        k = r.choice(["startswith", "endswith", "is_null", "is_not_null", "is_numeric", "is_string", "is_bool"])
+        if k in ("startswith", "endswith"): return {"t": "fn", "f": k, "args": [self.fn_str(1), strlit(r.choice(["a", "ab", " ", "b", "z", ""]))]}
+        return {"t": "fn", "f": k, "args": [col(r.choice(["x", "s", "n", "nosuch", "bb"]))]}
+
+    def fn_misc(self):
+        r = self.r
+        k = r.choice(["null_if", "coalesce_num", "null_if_s"])
+        if k == "null_if": return {"t": "fn", "f": "null_if", "args": [col(r.choice(NUMCOLS)), num(r.choice([0, 1, 2, 3]))]}
+        if k == "null_if_s": return {"t": "fn", "f": "null_if", "args": [col("s"), strlit(r.choice(["ab", "a b", "abab"]))]}
+        return {"t": "fn", "f": "coalesce", "args": [col("n"), col(r.choice(NUMCOLS)), num(7)]}
+
+    def fn_pred(self):
+        r = self.r
+        k = r.random()
+        if k < 0.45: return {"t": "cmp", "op": r.choice(self.cmpops()), "a": self.fn_num(1), "b": num(r.choice([0, 1, 2, 3, 4, 9]), r.choice([1, 1, 2]))}
+        if k < 0.7: return {"t": "cmp", "op": "=", "a": self.fn_str(2), "b": strlit(r.choice(["ab", "AB", "a b", "abab", "ab   ", "   ab"]))}
+        if k < 0.85: return self.fn_bool()
+        return {"t": r.choice(["and", "or"]), "a": self.fn_pred(), "b": self.fn_pred()}
+
+    def fn_row(self, i):
+        r = self.r
+        row = {"id": i, "q": r.choice([0, 1, 4, 9, 16, {"$f": 2.25}, {"$f": 6.25}, {"$f": 0.25}]), "bb": r.choice([True, False])}
+        for c in NUMCOLS:
+            row[c] = r.choice([-3, -1, 0, 1, 2, 3, 5, 7, {"$f": 2.5}, {"$f": -2.5}, {"$f": 0.5}, {"$f": 2.25}, {"$f": -0.75}, {"$f": 3.0}])
+        row["s"] = r.choice(["ab", " ab", "ab ", " a b ", "abab", "ba", "xz", "b", "  ", "aab", "abz"])
+        if r.random() < 0.5: row["n"] = None
+        return row
+
     def cmpops(self):
         ops = [">", ">=", "<", "<=", "="]
         return ops + ["!="] if self.f["neq"] else ops
